@@ -55,8 +55,8 @@ func vMergeTwo(focus string) {
 	if vParam("tieReopen", 0) == 0 {
 		r1 = vBool("reopen1")
 	}
-	s0 := vBuildInput(docs0, DefaultChunkMode, r0, "/v/in0.zap")
-	s1 := vBuildInput(docs1, DefaultChunkMode, r1, "/v/in1.zap")
+	s0 := vBuildInput(docs0, DefaultChunkMode, r0, vP("in0.zap"))
+	s1 := vBuildInput(docs1, DefaultChunkMode, r1, vP("in1.zap"))
 	d0, b0 := vDropBitmap("drop0_", n0)
 	d1, b1 := vDropBitmap("drop1_", n1)
 	want, wantNums := sMergeSpecs([]*sSpec{sp0, sp1}, [][]bool{b0, b1})
@@ -66,7 +66,7 @@ func vMergeTwo(focus string) {
 		}
 	}
 	var z ZapPlugin
-	path := "/v/merged.zap"
+	path := vP("merged.zap")
 	nums, size, err := z.Merge([]segment.Segment{s0, s1}, []*roaring.Bitmap{d0, d1}, path, nil, nil)
 	vAssert(err == nil, "merge-err")
 	vAssert(len(nums) == 2, "nums-len")
